@@ -48,6 +48,7 @@ func runC06(c *ShardCtx) {
 		quirks[f.Quirk] = f.ID
 	}
 	idx := 0
+	reuseSeen := 0
 	gen := core.Gen{}
 	var leaders map[string]bool // indirect cycles: the leader grows the seed (see C08)
 	run := func(g *peg.Grammar, script map[int]*rtapi.Block) {
@@ -61,7 +62,7 @@ func runC06(c *ShardCtx) {
 		if b == nil {
 			return
 		}
-		for _, in := range inputs {
+		for ii, in := range inputs {
 			o0 := rtapi.RunOpts{MaxExpr: 3000}
 			base := b.Run(in, &o0, script)
 			ro0 := core.RefOptions(&o0, b.Flags)
@@ -84,6 +85,20 @@ func runC06(c *ShardCtx) {
 				obs := b.Run(in, &o, script)
 				c.Res.Evaluations++
 				var diffs []string
+				// the option VALUES of this call passed again to a call on the next input (a caller who
+				// keeps opts := []Option{Memoize(true), ...} for a corpus): same result as that input alone
+				reuseSeen++
+				if reuseSeen%4 == 0 && !obs.Diverged {
+					in2 := inputs[(ii+1)%len(inputs)]
+					o2, o3 := o, o
+					warm := b.RunWarmReuse(in2, &o2, script)
+					alone := b.Run(in2, &o3, script)
+					c.Res.Counters["option_values_reused_runs"]++
+					if k1, k2 := warmKey(alone), warmKey(warm); k1 != k2 && !alone.Diverged && !warm.Diverged {
+						c.Report(Violation{Desc: fmt.Sprintf("a Parse call made after a call on the input %q with the same option values returns something else: %s (alone: %s)", in, k2, k1), Grammar: text, Gen: gen.String(), Input: string(in2),
+							InputHex: hexOf(in2), Opts: optsString(&o) + " " + scriptString(script) + " (option values of the previous call passed again)"}, "")
+					}
+				}
 				if obs.Diverged {
 					diffs = append(diffs, "did not return (tick cap)")
 				} else if failed(obs) != failed(base) || obs.Val != base.Val || strings.Join(scriptErrs(obs), "|") != strings.Join(scriptErrs(base), "|") || obs.Panic != base.Panic {
